@@ -283,9 +283,12 @@ fn gen_case(g: &mut SplitMix, thorough: bool, i: u64, n_exh: u64, exh: &[(usize,
         return CaseCfg { n, d: 1 + (i % 2) as usize, fails: vec![vec![k], vec![]], pool, spin_us: if pool.is_some() && i % 3 != 0 { 30 } else { 0 } };
     }
     let big = if thorough { 400 } else { 64 };
-    let n = (match g.below(10) { 0 => 0, 1 => 1, 2 => 2, 3 => big, 4 => g.below(big + 1), _ => g.below(20) }) as usize;
-    let d = g.below(4) as usize;
-    let steps = 1 + g.below(3) as usize;
+    // size boundaries: chunked / batched implementations slip at multiples of their block size
+    const EDGES: [u64; 22] = [31, 32, 33, 63, 64, 65, 96, 127, 128, 129, 192, 255, 256, 257, 384, 511, 512, 513, 768, 1023, 1024, 1025];
+    let edge = g.chance(1, if thorough { 12 } else { 40 });
+    let n = if edge { *g.pick(&EDGES) * if thorough && g.chance(1, 4) { 4 } else { 1 } } else { match g.below(10) { 0 => 0, 1 => 1, 2 => 2, 3 => big, 4 => g.below(big + 1), _ => g.below(20) } } as usize;
+    let d = if edge { g.below(2) } else { g.below(4) } as usize;
+    let steps = if edge { 1 } else { 1 + g.below(3) as usize };
     let fails = (0..steps).map(|_| match g.below(4) {
         0 | 1 => vec![],
         2 => vec![g.below(n as u64 + 2) as usize],
